@@ -335,24 +335,66 @@ pub proof fn lemma_C04_incoming_calls_are_the_references(v: NavV, us: Seq<UseV>,
 
 // ---- C05: which definition does each handler describe ------------------------------------------------------------
 //@tags C05
+/// a usage that `hit`s (line, name, span) also `covers` (line, span): if some usage hits, some usage covers
+pub proof fn lemma_first_use_weaken(us: Seq<UseV>, p: spec_fn(UseV) -> bool, q: spec_fn(UseV) -> bool)
+    requires first_use(us, p) is Some, forall|u: UseV| p(u) ==> q(u)
+    ensures first_use(us, q) is Some
+    decreases us.len()
+{
+    if us.len() > 0 && !q(us[0]) { assert(!p(us[0])); lemma_first_use_weaken(us.drop_first(), p, q); }
+}
+/// wherever go-to-definition has a target, find_fixture_at_position (unit position: op_name_at) names a fixture:
+/// the usage go-to-definition resolved covers the cursor.  (DISCHARGES the former hypothesis `name_at is Some`.)
+pub proof fn lemma_goto_target_has_name(v: NavV, uri: Uri, line: u32, ch: u32)
+    requires goto_target(v, uri, line, ch) is Some
+    ensures refs_name(v, uri, line, ch) is Some
+{
+    let p = uri_path(uri)->0;
+    let t = file_content(v.cache, p)->0;
+    let lc = line_of(t, line as int)->0;
+    let w = word_at(lc, ch as int)->0;
+    lemma_first_use_weaken(bucket(v.uses, p), hit(line as int + 1, w, ch as int), covers(line as int + 1, ch as int));
+}
 /// hover describes the definition go-to-definition navigates to (same resolver: find_fixture_definition); wherever
 /// go-to-definition has a target, go-to-implementation and call-hierarchy preparation select that same definition
 /// (find_fixture_or_definition_at_position falls back to "name of a definition under the cursor" only when
-/// go-to-definition has no target); and find-references works for it too, provided find_fixture_at_position
-/// names a fixture there (assumed callee: hypothesis)
+/// go-to-definition has no target); and find-references works for it too: it lists location(D) and the references
+/// of D (op_refs), never the by-name fallback
 pub proof fn lemma_C05_handlers_select_the_goto_definition(v: NavV, root: Option<PV>, uri: Uri, line: u32, ch: u32, d: DefV,
-        h: jsonrpc::Result<Option<Hover>>)
+        h: jsonrpc::Result<Option<Hover>>, fl: Seq<UseV>)
     requires goto_target(v, uri, line, ch) == Some(d),
     ensures
         goto_or_def_target(v, uri, line, ch) == Some(d),
         hover_post(v, root, uri, line, ch, h) ==> (match h { Ok(Some(hv)) => hover_is(hv, doc_text(d, root)), _ => false }),
-        name_at(v.cache, v.defs, v.uses, uri_path(uri)->0, line, ch) is Some ==>
-            refs_sel(v, uri, line, ch) == Some((Some(d), op_refs(v.defs, v.byfix, v.provf, d))),
+        refs_def(v, uri, line, ch) == Some(d),
+        refs_sel(v, uri, line, ch, fl) == Some((Some(d), op_refs(v.defs, v.byfix, v.provf, d))),
         op_handle_goto(v, uri, line, ch) is Some <==> op_handle_impl(v, uri, line, ch) is Some,
         op_handle_goto(v, uri, line, ch) is Some <==> op_handle_prepare(v, uri, line, ch) is Some,
         path_uri(v.uc, d.file) is Some ==> (op_handle_prepare(v, uri, line, ch)->0)[0].name == d.name
             && (op_handle_prepare(v, uri, line, ch)->0)[0].uri == path_uri(v.uc, d.file)->0,
-{}
+{
+    lemma_goto_target_has_name(v, uri, line, ch);
+}
+//@tags C04
+/// the by-name fallback (no definition determined: the usage under the cursor resolves to nothing and no definition
+/// of that name sits on the line): the answer lists NO definition and, for SOME enumeration ks of the indexed files,
+/// the locations of all recorded usages carrying the name (minus those without URI) — a usage that resolves to
+/// nothing is listed under no definition; by lemma_C04_by_name_* (unit position) the list is a permutation-invariant
+/// multiset: each usage as often as it is recorded
+pub proof fn lemma_C04_references_by_name_fallback(v: NavV, uri: Uri, line: u32, ch: u32, r: jsonrpc::Result<Option<Vec<Location>>>)
+    requires references_post(v, uri, line, ch, r), refs_name(v, uri, line, ch) is Some, refs_def(v, uri, line, ch) is None,
+    ensures exists|ks: Seq<PV>| enumerates(ks, v.uses)
+        && (uses_fit(#[trigger] refs_by_name(v.uses, ks, refs_name(v, uri, line, ch)->0)) ==>
+            opt_vec_view(r) == nonempty(ref_locs(v.uc, refs_by_name(v.uses, ks, refs_name(v, uri, line, ch)->0), None)))
+{
+    let fl = choose|fl: Seq<UseV>| #[trigger] references_post_fl(v, uri, line, ch, r, fl);
+    let n = refs_name(v, uri, line, ch)->0;
+    let ks = choose|ks: Seq<PV>| enumerates(ks, v.uses) && fl == #[trigger] refs_by_name(v.uses, ks, n);
+    assert(enumerates(ks, v.uses));
+    if uses_fit(refs_by_name(v.uses, ks, n)) {
+        if fl.len() > 0 { lemma_ref_locs_filter_map(v.uc, fl, None); }
+    }
+}
 
 /// every definition is filed under its own name (index well-formedness, A7)
 pub open spec fn wf_names_nav(defs: Map<Seq<char>, Seq<DefV>>) -> bool {
@@ -417,10 +459,16 @@ proof fn canary_goto_always_answers(v: NavV, uri: Uri, line: u32, ch: u32)
     ensures op_handle_goto(v, uri, line, ch) is Some
 {}
 /// find-references lists every usage carrying the name (it lists those that RESOLVE to the definition)
-proof fn canary_references_lists_all_usages_of_the_name(v: NavV, d: DefV, u: Uri)
-    requires path_uri(v.uc, d.file) == Some(u)
+proof fn canary_references_lists_all_usages_of_the_name(v: NavV, d: DefV, u: Uri, fl: Seq<UseV>)
+    requires path_uri(v.uc, d.file) == Some(u), refs_by_name_post(v.uses, d.name, fl)
     ensures locs_of_sel(v.uc, Some(d), op_refs(v.defs, v.byfix, v.provf, d))
-        == Some(seq![def_location(u, d)] + ref_locs(v.uc, refs_named(v.uses, d.name), Some(d)))
+        == Some(seq![def_location(u, d)] + ref_locs(v.uc, fl, Some(d)))
+{}
+/// the by-name fallback is a function of the view (it is not: the order between files is the hash order)
+proof fn canary_by_name_fallback_is_deterministic(v: NavV, uri: Uri, line: u32, ch: u32, r1: jsonrpc::Result<Option<Vec<Location>>>, r2: jsonrpc::Result<Option<Vec<Location>>>)
+    requires references_post(v, uri, line, ch, r1), references_post(v, uri, line, ch, r2), r1 is Ok, r2 is Ok,
+        refs_name(v, uri, line, ch) is Some, refs_def(v, uri, line, ch) is None,
+    ensures opt_vec_view(r1) == opt_vec_view(r2)
 {}
 /// ... and never drops a usage that resolves to D (it drops location-less ones)
 proof fn canary_references_drops_nothing(v: NavV, d: DefV)
@@ -447,9 +495,9 @@ proof fn canary_references_no_duplicates_unconditionally(uc: UriCache, us: Seq<U
     lemma_ref_locs_filter_map(uc, us, Some(d));
 }
 /// the code lens counts the usages carrying the name
-proof fn canary_lens_counts_usages_by_name(v: NavV, uri: Uri, d: DefV)
-    requires lens_for(v, uri, d) is Some
-    ensures ((lens_for(v, uri, d)->0).cmd->0).0 == lens_title(refs_named(v.uses, d.name).len())
+proof fn canary_lens_counts_usages_by_name(v: NavV, uri: Uri, d: DefV, fl: Seq<UseV>)
+    requires lens_for(v, uri, d) is Some, refs_by_name_post(v.uses, d.name, fl)
+    ensures ((lens_for(v, uri, d)->0).cmd->0).0 == lens_title(fl.len())
 {}
 /// go-to-implementation points at the definition line even for generator fixtures
 proof fn canary_impl_is_definition_line(v: NavV, uri: Uri, line: u32, ch: u32)
